@@ -87,6 +87,7 @@ def crosscheck_memory(seed=0, n_inputs=24):
             super().__init__({})
     rng = random.Random(seed + 4242)
     checked = 0
+    skipped = [0]
 
     def setup(fname, make_args):
         ex = c.base_exec()
@@ -139,6 +140,7 @@ def crosscheck_memory(seed=0, n_inputs=24):
                 real = ("raise", type(e).__name__)
             after = observe(m)
             matched = False
+            undecided_paths = 0
             for o in outs:
                 s = z3.Solver(); s.set("timeout", 20000)
                 s.add(*base); s.add(*o.path.pc)
@@ -146,6 +148,7 @@ def crosscheck_memory(seed=0, n_inputs=24):
                 if r == z3.unsat:
                     continue
                 if r != z3.sat:
+                    undecided_paths += 1
                     continue           # undecided feasibility: this path cannot be used as evidence either way
                 p = o.path
                 v1 = mm.view_of(p, self_)
@@ -171,12 +174,20 @@ def crosscheck_memory(seed=0, n_inputs=24):
                                       f"but a feasible engine path predicts something else (model {s2.model()})"[:600])
                 if real[0] == "return" and r2 == z3.unsat:
                     matched = True
+                if real[0] == "return" and r2 == z3.unknown:
+                    undecided_paths += 1
                 if real[0] == "raise" and r2 != z3.unknown:
                     # a returning path is feasible although CPython raised: only acceptable if the raise hinges on an
                     # uninterpreted name fact (TypeError/ValueError from Name()/namespace), which stays free here
                     pass
+            if not matched and undecided_paths:
+                # some path's feasibility / prediction could not be decided within the budget (e.g. a busy machine): this input
+                # says nothing either way - it is not counted as cross-checked and never reported as a disagreement
+                skipped[0] += 1
+                continue
             if not matched:
                 raise EngineFault(f"pyvc/CPython disagreement on MemoryMap.{fname}{ {k: repr(v)[:20] for k, v in conc.items()} }: "
                                   f"real outcome {real} (state {before} -> {after}) is predicted by no feasible engine path")
             checked += 1
+    crosscheck_memory.skipped = skipped[0]
     return checked
